@@ -36,9 +36,9 @@ FS = 50.0
 # ---------------------------------------------------------------------------
 # algorithm with installed results
 # ---------------------------------------------------------------------------
-def _install(kind, t):
+def _install(kind, t, fs=None):
     Fn = t["Fn"]
-    ss = SingleSetup(np.zeros((16, t["Phi"].shape[2])), fs=FS)
+    ss = SingleSetup(np.zeros((16, t["Phi"].shape[2])), fs=FS if fs is None else fs)
     if kind == "SSI":
         alg = SSIcov(name="a", br=4, ordmax=Fn.shape[1] - 1)
         ss.add_algorithms(alg)
@@ -201,19 +201,33 @@ def judge_dialog(case):
         Fn = None
     else:
         t = _table(case["table"])
-        ss, alg = _install(kind, t)
+        fsc = float(case["table"].get("fscale", 1.0))
+        ss, alg = _install(kind, t, fs=FS * fsc)
         Fn, freq = t["Fn"], None
+        if case.get("prior"):
+            # modes were extracted on this object before the dialog is opened: the dialog's selection replaces them
+            cells = np.argwhere(np.isfinite(Fn))
+            if len(cells):
+                i_, o_ = [int(v) for v in cells[case["prior"] % len(cells)]]
+                sut(ss.mpe, "a", sel_freq=[float(Fn[i_, o_])], order=o_ if kind == "SSI" else o_ + 1, rtol=1e-6)
+                j.tag("modes-extracted-before")
 
     def script(dlg):
         holder["model"] = _play(j, dlg, kind, case["actions"], Fn, freq, real)
         holder["final"] = (list(dlg.sel_freq), None if kind == "FDD" else list(dlg.pole_ind))
 
     matplotlib.pyplot.close("all")
+    fsc = float(case["table"].get("fscale", 1.0)) if kind != "FDD" else 1.0
+    fl = case.get("freqlim") or [0.0, FS / 2]  # displayed band; picks are not restricted to it
+    if fl != [0.0, FS / 2]:
+        j.tag("freqlim-window")
+    if fsc != 1.0:
+        j.tag("frequency-unit-scaled")
     with headless.patched(script, fast=not real):
         if kind == "FDD":
-            r = sut(ss.mpe_from_plot, "a", freqlim=(0.0, FS / 2), DF=1.0)
+            r = sut(ss.mpe_from_plot, "a", freqlim=(fl[0], fl[1]), DF=1.0)
         else:
-            r = sut(ss.mpe_from_plot, "a", freqlim=(0.0, FS / 2), rtol=1e-6)
+            r = sut(ss.mpe_from_plot, "a", freqlim=(fl[0] * fsc, fl[1] * fsc), rtol=1e-6)
     matplotlib.pyplot.close("all")
     model = holder.get("model")
     if model is None:
@@ -280,6 +294,7 @@ def enum_dialog(kind):
                     c.update(seed=5, nf=65)
                 else:
                     c["table"] = SMALL
+                    c["prior"] = sum(seq) % 2  # half of the sequences run on an object that already holds extracted modes
                 cases.append(c)
         return cases, True
 
@@ -294,7 +309,7 @@ def machine_case(draw, kind):
         fmax, cols = FS / 2, None
     else:
         tc = draw(tables.table_case(max_rows=8, max_cols=12, min_cols=3))
-        tc["fscale"] = 1.0
+        tc["fscale"] = draw(st.sampled_from([1.0, 1.0, 1.0, 1e-6, 1e3]))  # the same tables in another frequency unit (slow processes, kHz)
         tc["empty_col"] = False
         tc["pnan"] = min(tc["pnan"], 0.3)
         c["table"] = tc
@@ -304,10 +319,14 @@ def machine_case(draw, kind):
             tc["pnan"] = 0.0
             tc["nmodes"] = max(1, tc["nmodes"])
             cols = list(range(tc["cols"]))
+    fsc = 1.0 if kind == "FDD" else c["table"]["fscale"]
+    c["freqlim"] = draw(st.sampled_from([None, None, [3.0, 21.0], [6.5, 24.0], [0.0, 12.0]]))
+    c["prior"] = draw(st.sampled_from([0, 0, 1, 5, 11])) if kind != "FDD" else 0
+    xlo, xhi = (0.3, 24.5) if c["freqlim"] is None else (c["freqlim"][0] + 0.2, c["freqlim"][1] - 0.2)
     acts = []
     for _ in range(draw(st.integers(1, 6))):
         a = draw(st.sampled_from(["select", "select", "select", "deselect_one", "deselect_nearest"]))
-        x = draw(st.floats(0.3, 24.5))
+        x = draw(st.floats(xlo, xhi)) * fsc
         if kind == "FDD":
             y = draw(st.floats(-40.0, -1.0))
         else:
